@@ -247,6 +247,76 @@ func bytesFamily(name string, alphabet []byte, maxLen int) seq.Family {
 	}
 }
 
+// HostileLengthInputs enumerates structurally valid metadata whose length fields (entry, key,
+// value) are replaced by hostile values, in minimal and in padded (overlong) varint form, followed
+// by 0..3 bytes; f returns false to stop.
+func HostileLengthInputs(f func(b []byte) bool) {
+	varint := func(v uint64, pad int) []byte {
+		var b []byte
+		for v >= 0x80 {
+			b = append(b, byte(v)|0x80)
+			v >>= 7
+		}
+		b = append(b, byte(v))
+		for i := 0; i < pad && len(b) < 10; i++ {
+			b[len(b)-1] |= 0x80
+			b = append(b, 0)
+		}
+		return b
+	}
+	vals := []uint64{0, 1, 2, 3, 5, 127, 128, 1<<31 - 1, 1 << 31, 1<<32 - 1, 1 << 32, 1<<63 - 1, 1 << 63, 1<<63 + 5, 1<<64 - 1}
+	for _, v := range vals {
+		for _, pad := range []int{0, 1, 9} {
+			L := varint(v, pad)
+			for tail := 0; tail <= 3; tail++ {
+				rest := []byte{0x0a, 0x01, 0x6b}[:tail]
+				// entry length
+				if !f(append(append([]byte{0x0a}, L...), rest...)) {
+					return
+				}
+				// key length inside an entry of plausible size
+				inner := append(append([]byte{0x0a}, L...), rest...)
+				if !f(append(append([]byte{0x0a}, varint(uint64(len(inner)), 0)...), inner...)) {
+					return
+				}
+				// value length after a one-byte key
+				inner = append(append([]byte{0x0a, 0x01, 0x6b, 0x12}, L...), rest...)
+				if !f(append(append([]byte{0x0a}, varint(uint64(len(inner)), 0)...), inner...)) {
+					return
+				}
+				// a good entry first, then the hostile one
+				good := []byte{0x0a, 0x06, 0x0a, 0x01, 0x61, 0x12, 0x01, 0x62}
+				if !f(append(append(append(append([]byte{}, good...), 0x0a), L...), rest...)) {
+					return
+				}
+			}
+		}
+	}
+}
+
+func lengthsFamily() seq.Family {
+	return seq.Family{
+		Name: "hostile-length-fields",
+		Run: func(ctx *seq.Ctx) {
+			HostileLengthInputs(func(b []byte) bool {
+				ctx.Count(1, 1, 1)
+				if msg, _ := decodeCase(b); msg != "" {
+					return !ctx.Fail(msg, map[string]string{"Hex": seq.Hex(b)})
+				}
+				return true
+			})
+			ctx.Class("rejected-or-agrees")
+			ctx.Sample(map[string]string{"Hex": "0a80808080808080808001"})
+		},
+		Replay: func(in json.RawMessage) string {
+			var v struct{ Hex string }
+			_ = json.Unmarshal(in, &v)
+			msg, _ := decodeCase(seq.Unhex(v.Hex))
+			return msg
+		},
+	}
+}
+
 func families(tier string) []seq.Family {
 	full := make([]byte, 256)
 	for i := range full {
@@ -254,9 +324,9 @@ func families(tier string) []seq.Family {
 	}
 	reduced := []byte{0x00, 0x01, 0x02, 0x03, 0x0a, 0x12, 0x61, 0x80, 0xff}
 	if tier == "quick" {
-		return []seq.Family{mapsFamily(2), bytesFamily("decode-bytes<=3/full", full, 3), bytesFamily("decode-bytes<=7/9sym", reduced, 7)}
+		return []seq.Family{mapsFamily(2), bytesFamily("decode-bytes<=3/full", full, 3), bytesFamily("decode-bytes<=7/9sym", reduced, 7), lengthsFamily()}
 	}
-	return []seq.Family{mapsFamily(3), bytesFamily("decode-bytes<=3/full", full, 3), bytesFamily("decode-bytes<=9/9sym", reduced, 9)}
+	return []seq.Family{mapsFamily(3), bytesFamily("decode-bytes<=3/full", full, 3), bytesFamily("decode-bytes<=9/9sym", reduced, 9), lengthsFamily()}
 }
 
 func init() {
